@@ -102,7 +102,9 @@ FromTx(tx, idx, prevouts, ht, codesep) ==
            ELSE BIP341(tx, idx, prevouts, h, IF parts.ext = << >> THEN 0 ELSE 1, parts.annex, parts.ext)
     ELSE LET sc == IF IsP2SH(spk) THEN LastPush(tx.vin[idx].script) ELSE spk IN
          IF IsP2WPKH(sc) THEN BIP143(tx, idx, <<118, 169, 20>> \o SubSeq(sc, 3, 22) \o <<136, 172>>, prevouts[idx].value, ht)
+         \* (a script with fewer separators than asked for has no such script code: there is nothing to hash)
          ELSE IF IsP2WSH(sc) THEN
-              LET w == tx.vin[idx].witness IN BIP143(tx, idx, AfterCodeSepFrom(w[Len(w)], 1, codesep), prevouts[idx].value, ht)
-         ELSE Legacy(tx, idx, AfterCodeSepFrom(sc, 1, codesep), ht)
+              LET w == tx.vin[idx].witness  code == AfterCodeSepFrom(w[Len(w)], 1, codesep) IN
+              IF code = <<-1>> THEN <<"refused">> ELSE BIP143(tx, idx, code, prevouts[idx].value, ht)
+         ELSE LET code == AfterCodeSepFrom(sc, 1, codesep) IN IF code = <<-1>> THEN <<"refused">> ELSE Legacy(tx, idx, code, ht)
 =============================================================================
